@@ -22,6 +22,7 @@ func split(ctx context.Context, r io.Reader) (<-chan string, <-chan error) {
 
 		block := ""
 		for sc.Scan() {
+			verifPoint("split.scan")
 			select {
 			case <-ctx.Done():
 				return
@@ -29,6 +30,7 @@ func split(ctx context.Context, r io.Reader) (<-chan string, <-chan error) {
 				l := sc.Text()
 				if isRootBlockBeginning(l) {
 					if len(block) != 0 {
+						verifPoint("split.send")
 						select {
 						case <-ctx.Done():
 							return
@@ -41,9 +43,11 @@ func split(ctx context.Context, r io.Reader) (<-chan string, <-chan error) {
 			}
 		}
 		if err := sc.Err(); err != nil {
+			verifPoint("split.err")
 			errc <- err
 			return
 		}
+		verifPoint("split.last")
 		select {
 		case <-ctx.Done():
 			return
